@@ -49,9 +49,12 @@ Mdls   == {"none", "e-", "all", "gamma", "badlabel", "badrank", "negap", "bigap"
 \* unknown = an option the program does not have ; dangling = an option that needs a value is the last argument ;
 \* extra = a second positional parameter ; help = -h
 Faults == {"none", "unknown", "dangling", "extra", "help"}
+\* how the integer option values (-l -m -s -n, MDL rank) are SPELT: "plain" = shortest decimal form, "padded" = decimal
+\* with a leading zero (010 for ten: zero-padded numbers from job scripts).  The value, hence the plan, is the same.
+Spellings == {"plain", "padded"}
 
 CmdLines == [cat : Cats, nuc : Nucs, level : LevelVals, mode : ModeVals, win : Wins,
-             seed : Seeds, count : CountVals, act : Acts, mdl : Mdls, fault : Faults]
+             seed : Seeds, count : CountVals, act : Acts, mdl : Mdls, fault : Faults, sp : Spellings]
 
 -----------------------------------------------------------------------------
 (* The double-beta table: Q-value, K binding energy (keV), sign of the process, level energies (keV), 2+ levels. *)
@@ -181,21 +184,21 @@ Plan(cl) == [verdict |-> Verdict(cl), why |-> IF Why(cl) # "none" THEN Why(cl) E
 CONSTANTS Bases, MaxDev, Extra   \* Extra: further command lines (the kill-point configurations)
 
 Core == [cat : Cats, nuc : Nucs, level : LevelVals, mode : ModeVals, win : Wins,
-         seed : {"none"}, count : {Absent}, act : {"none"}, mdl : {"none"}, fault : {"none"}]
+         seed : {"none"}, count : {Absent}, act : {"none"}, mdl : {"none"}, fault : {"none"}, sp : {"plain"}]
 
 NDev(cl) == (IF cl.seed # "none" THEN 1 ELSE 0) + (IF cl.count # Absent THEN 1 ELSE 0) + (IF cl.act # "none" THEN 1 ELSE 0)
-          + (IF cl.mdl # "none" THEN 1 ELSE 0) + (IF cl.fault # "none" THEN 1 ELSE 0)
+          + (IF cl.mdl # "none" THEN 1 ELSE 0) + (IF cl.fault # "none" THEN 1 ELSE 0) + (IF cl.sp # "plain" THEN 1 ELSE 0)
 
 Around(b) == {cl \in [cat : {b.cat}, nuc : {b.nuc}, level : {b.level}, mode : {b.mode}, win : {b.win},
-                      seed : Seeds, count : CountVals, act : Acts, mdl : Mdls, fault : Faults] : NDev(cl) <= MaxDev}
+                      seed : Seeds, count : CountVals, act : Acts, mdl : Mdls, fault : Faults, sp : Spellings] : NDev(cl) <= MaxDev}
 
-Grid == Core \cup UNION {Around(b) : b \in Bases} \cup Extra
+Grid == Core \cup UNION {Around(b) : b \in Bases} \cup Extra \cup {[x EXCEPT !.sp = "padded"] : x \in Extra}
 
 VARIABLES cl, plan
 vars == <<cl, plan>>
 
 None == [cat |-> "none", nuc |-> "none", level |-> Absent, mode |-> Absent, win |-> "none",
-         seed |-> "none", count |-> Absent, act |-> "none", mdl |-> "none", fault |-> "none"]
+         seed |-> "none", count |-> Absent, act |-> "none", mdl |-> "none", fault |-> "none", sp |-> "plain"]
 
 Init == cl = None /\ plan = Plan(None)
 Pick(c) == cl = None /\ cl' = c /\ plan' = Plan(c)
@@ -221,6 +224,9 @@ RunIsSupported ==
 ReasonIffRefused == /\ (plan.verdict = "refuse") <=> (Why(cl) # "none" /\ cl.fault # "help")
                     /\ (plan.verdict = "unspecified") <=> (Deviation(cl) # "none" /\ cl.fault # "help")
                     /\ (plan.verdict = "run") => plan.why = "none"
+
+\* the spelling of a number changes nothing of what has to happen
+SpellingIrrelevant == plan = Plan([cl EXCEPT !.sp = "plain"])
 
 \* required and informational keys are disjoint
 KeysDisjoint == plan.req \cap plan.opt = {}
